@@ -233,7 +233,7 @@ def carries (s : Scene) (d : Doc) (buf : List UInt8) (md : Model) (n : GNode) : 
               && (match p.indices with
                   | some i => decodeAt d buf i == some m.indices
                   | none => false)
-              && p.mode == (if m.topo = 1 then some 0 else none)
+              && p.mode == modeOfTopo m.topo
               && (md.material.isSome == p.material.isSome)
           | _ => false)
         | none => false)
